@@ -61,10 +61,13 @@ func (e *EUI64) UnmarshalBinary(data []byte) error {
 	if len(data) != len(e) {
 		return fmt.Errorf("lorawan: %d bytes of data are expected", len(e))
 	}
+	// via a temporary: data may overlap the receiver (e.UnmarshalBinary(e[:]))
+	var tmp EUI64
 	for i, v := range data {
 		// little endian
-		e[len(e)-i-1] = v
+		tmp[len(e)-i-1] = v
 	}
+	*e = tmp
 	return nil
 }
 
